@@ -830,6 +830,7 @@ func (env *Environment) runTasksAsHooks(hooksToTrigger task.Tasks) (errorMap map
 	}
 
 	timeoutCh := make(chan string)
+	abortCh := make(chan struct{}) // closed if the hooks could not be triggered
 	hookTimers := make(map[string]*time.Timer)
 
 	for _, hook := range hooksToTrigger {
@@ -846,7 +847,10 @@ func (env *Environment) runTasksAsHooks(hooksToTrigger task.Tasks) (errorMap map
 		tid := hook.GetTaskId()
 		hookTimers[tid] = time.AfterFunc(timeout,
 			func() {
-				timeoutCh <- tid
+				select {
+				case timeoutCh <- tid:
+				case <-abortCh:
+				}
 			})
 	}
 
@@ -857,6 +861,9 @@ func (env *Environment) runTasksAsHooks(hooksToTrigger task.Tasks) (errorMap map
 
 		for {
 			select {
+			case <-abortCh:
+				doneCh <- struct{}{}
+				return
 			case tid := <-timeoutCh:
 				log.WithField("taskId", tid).Debug("incoming hook timeout")
 				thisHook := hooksToTrigger.GetByTaskId(tid)
@@ -893,7 +900,16 @@ func (env *Environment) runTasksAsHooks(hooksToTrigger task.Tasks) (errorMap map
 						continue
 					}
 
-					hookTimers[tid].Stop()
+					timer, hasTimer := hookTimers[tid]
+					if !hasTimer {
+						// the hook has already been accounted for (it timed out): a late report changes nothing
+						log.WithField("partition", env.Id().String()).
+							WithField("taskId", tid).
+							WithField("level", infologger.IL_Devel).
+							Warn("hook termination received after its timeout, ignoring")
+						continue
+					}
+					timer.Stop()
 					delete(hookTimers, tid)
 
 					if evt.ExitCode != 0 {
@@ -959,6 +975,10 @@ func (env *Environment) runTasksAsHooks(hooksToTrigger task.Tasks) (errorMap map
 
 	err := env.hookHandlerF(hooksToTrigger)
 	if err != nil {
+		// The collector goroutine must neither outlive this call (it would consume events meant
+		// for later hooks) nor touch errorMap and hookTimers while they are filled in below.
+		close(abortCh)
+		<-doneCh
 		for _, h := range hooksToTrigger {
 			errorMap[h] = err
 			timer, ok := hookTimers[h.GetTaskId()]
